@@ -236,13 +236,24 @@ class Inference(object):
         """
         self._check_virtual_evidence(virtual_evidence)
 
-        bn = self.model.copy()
+        # Several virtual evidences on the same variable are equivalent to a single one
+        # whose likelihood is the product of the individual likelihoods.
+        likelihoods = {}
         for cpd in virtual_evidence:
             var = cpd.variables[0]
+            if var in likelihoods:
+                states, values = likelihoods[var]
+                order = [list(cpd.state_names[var]).index(state) for state in states]
+                likelihoods[var] = (states, values * cpd.values[order])
+            else:
+                likelihoods[var] = (list(cpd.state_names[var]), cpd.values)
+
+        bn = self.model.copy()
+        for var, (states, likelihood) in likelihoods.items():
             new_var = "__" + str(var)
             bn.add_edge(var, new_var)
             values = compat_fns.get_compute_backend().vstack(
-                (cpd.values, 1 - cpd.values)
+                (likelihood, 1 - likelihood)
             )
             new_cpd = TabularCPD(
                 variable=new_var,
@@ -250,7 +261,7 @@ class Inference(object):
                 values=values,
                 evidence=[var],
                 evidence_card=[self.model.get_cardinality(var)],
-                state_names={new_var: [0, 1], var: cpd.state_names[var]},
+                state_names={new_var: [0, 1], var: states},
             )
             bn.add_cpds(new_cpd)
 
